@@ -318,6 +318,10 @@ def run(repo, chk):
            f"eval(..., {[norm(a) for a in evs[0].args[1:]] if evs else '?'}), self.globals = {glb_src}, handed over as {passed}")
     from .shared import routing_obligations
     routing_obligations(repo, chk, "R11.3", "record")
+    from .shared import meta_tag_agreement_obligations
+    meta_tag_agreement_obligations(repo, chk, "R11.3")
+    from .shared import registration_obligations
+    registration_obligations(repo, chk, "R11.3")
     from .shared import annotation_cache_obligations
     annotation_cache_obligations(repo, chk, "R11.2")
     from .shared import activation_integrity_obligations
